@@ -238,6 +238,7 @@ Fixpoint enc_loop (fuel : nat) (c : rcfg) (ms : list rmodel) (snaps : list snap)
         end
     | 6 :: r => opt_app (enc_raw e) (enc_loop fuel' c ms snaps r e tr nsym ok)
     | 7 :: r => opt_app [0] (enc_loop fuel' c ms snaps r e tr nsym ok)
+    | 15 :: r => opt_app [0] (enc_loop fuel' c ms snaps r (renc_clear c e) (Some (spec_init c)) 0%nat ok)
     | 13 :: r => opt_app [0] (enc_loop fuel' c ms snaps r e tr nsym ok)   (* clone_from: same coder *)
     | 14 :: r => opt_app [0] (enc_loop fuel' c ms snaps r e tr nsym ok)   (* clone: same coder *)
     | 8 :: r =>
